@@ -66,21 +66,42 @@ theorem wrapU64_id (v : Nat) (h : v ≤ 18446744073709551615) : BagBridge.wrapU6
 theorem gen_uintObject_value (v : Nat) (h : v ≤ 18446744073709551615) :
     objToL (BagBridge.uintObject (v : Int)) = some (.int v) := by
   unfold BagBridge.uintObject
-  split <;> simp_all [objToL, BagBridge.wrap64, BagBridge.wrapU64] <;> omega
+  split
+  · rename_i hc
+    have hc' := of_decide_eq_true hc
+    try simp only [BagBridge.wrapU64, BagBridge.wrap64] at hc'
+    simp only [objToL, BagBridge.wrap64, BagBridge.wrapU64, Option.some.injEq, L.int.injEq]
+    omega
+  · rename_i hc
+    have hc' := fun hh => hc (decide_eq_true hh)
+    try simp only [BagBridge.wrapU64, BagBridge.wrap64] at hc'
+    simp only [objToL, BagBridge.wrap64, BagBridge.wrapU64, Option.some.injEq, L.int.injEq]
+    omega
+
+/-- the `uint` and `uint64` cases of the type switch go through the helper (and only through it) -/
+theorem so_uint (x : Int) : BagBridge.simpleObjectInt "uint" x = some (BagBridge.uintObject (BagBridge.wrapU64 x)) := by
+  simp [BagBridge.simpleObjectInt]
+
+theorem so_uint64 (x : Int) : BagBridge.simpleObjectInt "uint64" x = some (BagBridge.uintObject x) := by
+  simp [BagBridge.simpleObjectInt]
 
 /-- … and every unsigned Go integer — a uint64 above the int64 maximum included — the Lisp integer
     (octet for a uint8) with the same value: never a negative one. -/
 theorem gen_simpleObject_uint (bits : Nat) (v : Nat) (h : UnsignedOk bits v) :
     (BagBridge.simpleObjectInt (uname bits) (v : Int)).bind objToL = some (simpleObject (.uint bits v)) := by
   rcases h with ⟨rfl, h1⟩ | ⟨rfl, h1⟩ | ⟨rfl, h1⟩ | ⟨rfl, h1⟩ | ⟨rfl, h1⟩
-  · simp [BagBridge.simpleObjectInt, uname, simpleObject, wrapU64_id v h1, gen_uintObject_value v h1]
+  · have hu : uname 0 = "uint" := by decide
+    rw [hu, so_uint, wrapU64_id v h1, Option.bind_some, gen_uintObject_value v h1]
+    simp [simpleObject]
   · simp [BagBridge.simpleObjectInt, uname, objToL, simpleObject, BagBridge.wrapU]
     omega
   · simp [BagBridge.simpleObjectInt, uname, objToL, simpleObject, BagBridge.wrap64]
     omega
   · simp [BagBridge.simpleObjectInt, uname, objToL, simpleObject, BagBridge.wrap64]
     omega
-  · simp [BagBridge.simpleObjectInt, uname, simpleObject, gen_uintObject_value v h1]
+  · have hu : uname 64 = "uint64" := by decide
+    rw [hu, so_uint64, Option.bind_some, gen_uintObject_value v h1]
+    simp [simpleObject]
 
 example : UnsignedOk 64 18446744073709551615 := by unfold UnsignedOk; omega
 example : (BagBridge.simpleObjectInt "uint64" 18446744073709551615).bind objToL = some (.int 18446744073709551615) :=
